@@ -67,6 +67,17 @@ class Lst(Value):
         return f"Lst({self.items})"
 
 
+class NTup(Tup):
+    """An instance of a typing.NamedTuple class: a tuple whose positions also have names."""
+    def __init__(self, ci, items):
+        Tup.__init__(self, items)
+        self.ci = ci
+        self.names = [n for n, _ in ci.namedtuple_fields]
+
+    def field(self, name):
+        return self.items[self.names.index(name)] if name in self.names else None
+
+
 class Gen(Lst):
     """The object a generator FUNCTION returns: its body runs lazily, one step per request, interleaved with the consumer
     exactly as in Python (implemented as a coroutine on a helper thread with strict hand-off: one side runs at a time).
@@ -267,6 +278,8 @@ def show(v) -> str:
     """Canonical text of an abstract value (locals already substituted)."""
     if isinstance(v, Const):
         return repr(v.v)
+    if isinstance(v, NTup):
+        return v.ci.name + "(" + ", ".join(f"{n}={show(x)}" for n, x in zip(v.names, v.items)) + ")"
     if isinstance(v, Tup):
         return "(" + ", ".join(show(x) for x in v.items) + ("," if len(v.items) == 1 else "") + ")"
     if isinstance(v, Gen):
@@ -1097,6 +1110,8 @@ class Interp:
                             margs = list(cv)
                     if margs is None and getattr(cls.ci, "dataclass_fields", None):
                         margs = list(cls.ci.dataclass_fields)
+                    if margs is None and getattr(cls.ci, "namedtuple_fields", None) is not None:
+                        margs = [n for n, _ in cls.ci.namedtuple_fields]
                 if isinstance(cls, Builtin) and cls.name in ("str", "int", "float", "bytes", "bool") and len(pat.patterns) == 1:
                     if not self.match_pattern(pat.patterns[0], v, binds, node, frame):
                         return False
@@ -1107,7 +1122,10 @@ class Interp:
                         if not self.match_pattern(sub, self.get_attr(v, name, pat, frame), binds, node, frame):
                             return False
             for name, sub in zip(pat.kwd_attrs, pat.kwd_patterns):
-                if not self.truth(self.call_builtin("hasattr", [v, Const(name)], {}, pat, frame), pat):
+                if isinstance(v, NTup):
+                    if v.field(name) is None:
+                        return False
+                elif not self.truth(self.call_builtin("hasattr", [v, Const(name)], {}, pat, frame), pat):
                     return False
                 if not self.match_pattern(sub, self.get_attr(v, name, pat, frame), binds, node, frame):
                     return False
@@ -1562,7 +1580,7 @@ class Interp:
                         del self.events[n_ev:]
                     return gc[key]
                 hint = self.p.resolve_class(mod, expr.func)
-                if hint is None:
+                if hint is None or getattr(hint, "namedtuple_fields", None) is not None:
                     # any other module-level call (partial(...), methodcaller(...), chain(...), a compiled table ...) is
                     # evaluated once, like the interpreter of the program would at import time
                     gc = self.__dict__.setdefault("_globals", {})
@@ -1594,6 +1612,18 @@ class Interp:
         return self.get_attr(base, e.attr, e, frame)
 
     def get_attr(self, base, attr, node, frame) -> Value:
+        if isinstance(base, NTup):
+            f_ = base.field(attr)
+            if f_ is not None:
+                return f_
+            m_ = base.ci.find_method(attr)
+            if m_ is not None:
+                return Fn(m_, base)
+            if attr == "_fields":
+                return Tup([Const(n) for n in base.names])
+            x = Term("exc", "AttributeError", attr)
+            self.emit("raise", node, value=x)
+            raise _Raise(x, node)
         if isinstance(base, Mod):
             ent = self.p.lookup_in_module(base.m.name, attr)
             if ent is None:
@@ -2557,6 +2587,25 @@ class Interp:
                 if r is not None:
                     return r
             return t
+        if isinstance(callee, Cls) and not starkw and getattr(callee.ci, "namedtuple_fields", None) is not None and callee.ci.find_method("__new__") is None:
+            fields = callee.ci.namedtuple_fields
+            vals = []
+            for i_, (n_, d_) in enumerate(fields):
+                if i_ < len(args):
+                    vals.append(args[i_])
+                elif n_ in kwargs:
+                    vals.append(kwargs[n_])
+                elif d_ is not None:
+                    vals.append(self.eval_in_module(callee.ci.module, d_))
+                else:
+                    x = Term("exc", "TypeError", f"missing field {n_}")
+                    self.emit("raise", node, value=x)
+                    raise _Raise(x, node)
+            if len(args) > len(fields) or any(k_ not in [n for n, _ in fields] for k_ in kwargs):
+                x = Term("exc", "TypeError", "unexpected argument")
+                self.emit("raise", node, value=x)
+                raise _Raise(x, node)
+            return NTup(callee.ci, vals)
         if isinstance(callee, Cls) and not starkw and ((self.opts.get("instantiate") and self.opts["instantiate"](callee.ci)) or self.is_private_class(callee.ci)):
             n = self.__dict__.setdefault("_obj_counter", {})
             n[callee.ci.name] = n.get(callee.ci.name, 0) + 1
@@ -2944,6 +2993,11 @@ class Interp:
         return None if any_unknown else False
 
     def _isinstance1(self, v, k):
+        if isinstance(v, NTup):
+            if isinstance(k, Cls):
+                return k.ci in v.ci.mro
+            if isinstance(k, Builtin):
+                return k.name in ("tuple", "object")
         if isinstance(k, Cls):
             if isinstance(v, Obj) and v.cls is not None:
                 return k.ci in v.cls.mro
